@@ -31,6 +31,7 @@ def main():
             na.append({"property_id": pid, "reason": NA.get(pid, "check under construction; not claimed yet")})
             continue
         mod = importlib.import_module("sa.rules." + pid.lower())
+        from sa.rules.common import explanation_of
         served.append(pid)
         checks.append({
             "property_id": pid,
@@ -39,7 +40,7 @@ def main():
             "evidence_file": "/verif/evidence/%s.json" % pid,
             "replay_cmd_template": "/venv/bin/python -m sa.check %s --replay {path}" % pid,
             "engine": "sa",
-            "level_claimed": {"category": mod.LEVEL, "text": mod.EXPLANATION, "design_ref": "DESIGN.md section 4, %s" % pid},
+            "level_claimed": {"category": mod.LEVEL, "text": explanation_of(mod, pid), "design_ref": "DESIGN.md section 4, %s" % pid},
             "level_note": "Decides the named structural clauses (each a necessary condition of the property), not the "
                           "behaviour as a whole. Assumes: " + "; ".join(mod.ASSUMPTIONS),
             "technique": getattr(mod, "TECHNIQUE", TECH.get(pid, "static analysis over the parsed source (ast)")),
